@@ -6,20 +6,22 @@
 (* fail (vacuity guard).                                                              *)
 EXTENDS Laws, Json
 LawName == IOEnv.LAW
-VARIABLE cell
-Init == cell \in Cells(LawName)
-Next == UNCHANGED cell
+VARIABLES cell, judged
+Init == cell \in Cells(LawName) /\ judged = FALSE
+(* one step per cell: the lemmas are judged on the successor, so that a refutation is  *)
+(* reported as an invariant violation with a behaviour                                *)
+Next == ~judged /\ judged' = TRUE /\ UNCHANGED cell
 
 ASSUME LawName \in LawIds
 ASSUME JsonSerialize(IOEnv.PLAN_FILE,
          [law |-> LawName,
-          cells |-> {[cell |-> c, req |-> Req(LawName, c)] : c \in Cells(LawName)}])
+          cells |-> {[cell |-> c, req |-> Req(LawName, c), aux |-> Aux(LawName, c)] : c \in Cells(LawName)}])
 
 WellFormed == LET q == Req(LawName, cell) IN
                 /\ q.kind \in {"none", "dec", "exp"}
                 /\ q.kind = "exp" => q.lo <= q.hi
                 /\ q.kind = "dec" => q.lo \in 1..99
-Lemmas == LemmaForms
+Lemmas == judged => LemmaForms
 (* a law whose plan required nothing anywhere would be vacuous *)
 ASSUME \E c \in Cells(LawName) : Req(LawName, c).kind # "none"
 =============================================================================
